@@ -19,6 +19,8 @@ LINE.NORMALISE  blank/comment classification happens on the fully stripped line 
 """
 import ast
 
+from sa.astutil import ordn
+
 from sa import AnalysisError
 from sa.astutil import unparse, parents, in_block, enclosing
 from sa.cfg import build_cfg, EXC, is_exc_label
@@ -70,6 +72,15 @@ def _loop_over_file(fi, fparam):
                 linevar = sub.target.id
             elif isinstance(sub.target, ast.Tuple) and isinstance(sub.target.elts[-1], ast.Name):
                 linevar = sub.target.elts[-1].id
+        if linevar:
+            # `for raw in f: line = raw.strip(...)` (raw read nowhere else): the line variable is `line`
+            uses = [n for st in sub.body for n in ast.walk(st) if isinstance(n, ast.Name) and n.id == linevar and isinstance(n.ctx, ast.Load)]
+            stores = [n for st in sub.body for n in ast.walk(st) if isinstance(n, ast.Name) and n.id == linevar and isinstance(n.ctx, ast.Store)]
+            if len(uses) == 1 and not stores:
+                for st in sub.body:
+                    if isinstance(st, ast.Assign) and len(st.targets) == 1 and isinstance(st.targets[0], ast.Name) \
+                            and st.targets[0].id != linevar and any(x is uses[0] for x in ast.walk(st.value)):
+                        linevar = st.targets[0].id
         out.append((sub, counter, linevar, direct, start))
     return out
 
@@ -123,7 +134,25 @@ def _single_defs(fi):
                     defs.setdefault(nm, []).append(None)
     for nm in fi.params():
         defs.setdefault(nm, []).append(None)
-    return {k: v[0] for k, v in defs.items() if len(v) == 1 and v[0] is not None}
+    out = {k: v[0] for k, v in defs.items() if len(v) == 1 and v[0] is not None}
+    # `if T: v = A else: v = B` (the only two definitions of v) is the single definition `A if T else B`
+    for sub in walk_shallow(fi.node):
+        if isinstance(sub, ast.If) and len(sub.body) == 1 and len(sub.orelse) == 1 and all(
+                isinstance(s_, ast.Assign) and len(s_.targets) == 1 and isinstance(s_.targets[0], ast.Name) for s_ in (sub.body[0], sub.orelse[0])) \
+                and sub.body[0].targets[0].id == sub.orelse[0].targets[0].id:
+            nm = sub.body[0].targets[0].id
+            if len(defs.get(nm, [])) == 2 and all(v is not None for v in defs[nm]):
+                out[nm] = ast.fix_missing_locations(ast.copy_location(
+                    ast.IfExp(test=sub.test, body=sub.body[0].value, orelse=sub.orelse[0].value), sub))
+    # `a, b = <expr>` (only definition of a and b): a is `<expr>[0]`, b is `<expr>[1]`
+    for sub in walk_shallow(fi.node):
+        if isinstance(sub, ast.Assign) and len(sub.targets) == 1 and isinstance(sub.targets[0], ast.Tuple) \
+                and all(isinstance(e, ast.Name) for e in sub.targets[0].elts) and not isinstance(sub.value, ast.Tuple):
+            for k_, e in enumerate(sub.targets[0].elts):
+                if len(defs.get(e.id, [])) == 1:
+                    out[e.id] = ast.fix_missing_locations(ast.copy_location(
+                        ast.Subscript(value=sub.value, slice=ast.Constant(value=k_), ctx=ast.Load()), sub))
+    return out
 
 
 # ---------------------------------------------------------------------------------------------- SEC.SCAN / CONVENTION
@@ -136,7 +165,7 @@ def _scan_facts(p):
     for lp in loops:
         if any(isinstance(c, ast.Call) and isinstance(c.func, ast.Attribute) and c.func.attr == "startswith"
                and c.args and isinstance(c.args[0], ast.Constant) and c.args[0].value == "~" for c in ast.walk(lp)):
-            if scan is None or lp.lineno < scan.lineno:
+            if scan is None or ordn(lp) < ordn(scan):
                 scan = lp
     if scan is None:
         return fi, fparam, None
@@ -345,7 +374,7 @@ def rule_convention(ctx):
     ctx.check(not problems, "SEC.CONVENTION", fn.qual + "#window", fn, call,
               "fast engine window: skip_header = first+1, max_rows = last-first (inclusive end)", "; ".join(problems))
     seeks = [c for c in walk_shallow(fn.node) if isinstance(c, ast.Call) and isinstance(c.func, ast.Attribute) and c.func.attr == "seek"]
-    ok = any(c.args and isinstance(c.args[0], ast.Constant) and c.args[0].value == 0 and c.lineno < call.lineno for c in seeks)
+    ok = any(c.args and isinstance(c.args[0], ast.Constant) and c.args[0].value == 0 and ordn(c) < ordn(call) for c in seeks)
     ctx.check(ok, "SEC.CONVENTION", fn.qual + "#absolute", fn, call,
               "the fast engine rewinds to the start of the file before skipping `first+1` lines",
               "the fast engine addresses lines absolutely (skip_header counts from line 0) but does not seek(0) first")
@@ -586,7 +615,7 @@ def rule_end_test(ctx):
                 init = None
                 for sub in walk_shallow(fi.node):
                     if (isinstance(sub, ast.Assign) and any(isinstance(t, ast.Name) and t.id == cv for t in sub.targets)
-                            and not in_block(sub, loop.body) and sub.lineno < loop.lineno):
+                            and not in_block(sub, loop.body) and ordn(sub) < ordn(loop)):
                         init = sub.value
                 li = _lin(init, lambda n: None) if init is not None else None
                 want = [{f: 1} for f in firsts] + [{f: 1, 1: 0} for f in firsts]
@@ -654,7 +683,7 @@ def _foldable_title_tests(fi, names):
     return out
 
 
-def _fold_title(t, var, title, extra=None, defs=None):
+def _fold_title(t, var, title, extra=None, defs=None, menv=None, clsnode=None):
     """fold test t with the title variable bound to `title`; locals with a single definition (derived from the title or
     constant tables) are inlined through `defs`"""
     depth = [0]
@@ -672,6 +701,14 @@ def _fold_title(t, var, title, extra=None, defs=None):
                 return fold(defs[name], env)
             finally:
                 depth[0] -= 1
+        if clsnode is not None and name.startswith(("self.", "cls.")) and name.count(".") == 1:
+            attr = name.split(".", 1)[1]
+            vals = [st.value for st in clsnode.body if isinstance(st, ast.Assign) and any(isinstance(t_, ast.Name) and t_.id == attr for t_ in st.targets)]
+            if len(vals) == 1:
+                return fold(vals[0], env)
+            raise NotConst("class attribute %s" % name)
+        if menv is not None:
+            return menv(name)
         if _MODULE_ENV[0] is not None:
             return _MODULE_ENV[0](name)
         raise NotConst("name %s" % name)
@@ -690,9 +727,11 @@ def _mentions(v, tv, derived, depth=0):
     return any(n in derived and _mentions(derived[n], tv, derived, depth + 1) for n in names)
 
 
-def _title_derived(fi, tv):
-    """single-definition locals whose value depends only on the title variable / constants (transitively)"""
+def _title_derived(fi, tv, known=(), modules=False):
+    """single-definition locals whose value depends only on the title variable / constants (transitively); `known` are names
+    the caller binds itself (the version under which a probe is evaluated)"""
     defs = _single_defs(fi)
+    known = set(known) | ({k for k, v in fi.module.imports.items() if v[0] == "module"} | {"self", "cls"} if modules else set())
     # containers that are updated after their definition do not keep their initial (literal) value
     mutated = set()
     for sub in walk_shallow(fi.node):
@@ -712,6 +751,8 @@ def _title_derived(fi, tv):
                 continue
             bound = {n.id for c in ast.walk(v) if isinstance(c, ast.comprehension) for n in ast.walk(c.target) if isinstance(n, ast.Name)}
             free = {n.id for n in ast.walk(v) if isinstance(n, ast.Name)} - {"re", "len", "str", "any", "all", "dict", "tuple", "set"} - bound
+            if free - known:
+                free = free - known
             pure_const = not free and isinstance(v, (ast.Constant, ast.Tuple, ast.List, ast.Set, ast.Dict))
             if (free and free <= ({tv} | set(good))) or pure_const:
                 good[k] = v
@@ -1094,14 +1135,23 @@ def rule_route(ctx):
         if node.kind == "stmt" and isinstance(a, ast.Assign) and any(isinstance(t, ast.Attribute) and t.attr == "section_name2" for t in a.targets):
             tests = [(cfg_i.nodes[tn].ast, lab.startswith("true")) for (tn, lab) in cd_i.transitive(node.id) if cfg_i.nodes[tn].kind == "test"]
             kinds.append((a.value, tests))
+        elif node.kind == "stmt" and isinstance(a, ast.Assign) and len(a.targets) == 1 and isinstance(a.targets[0], ast.Tuple):
+            for k_, t_ in enumerate(a.targets[0].elts):
+                if isinstance(t_, ast.Attribute) and t_.attr == "section_name2":
+                    tests = [(cfg_i.nodes[tn].ast, lab.startswith("true")) for (tn, lab) in cd_i.transitive(node.id) if cfg_i.nodes[tn].kind == "test"]
+                    val = a.value.elts[k_] if isinstance(a.value, ast.Tuple) and len(a.value.elts) == len(a.targets[0].elts) else \
+                        ast.Subscript(value=a.value, slice=ast.Constant(value=k_), ctx=ast.Load())
+                    kinds.append((ast.fix_missing_locations(ast.copy_location(val, a)), tests))
     routes = []
     for nid, a, t in mine:
         tests = [(cfg.nodes[tn].ast, lab.startswith("true")) for (tn, lab) in cd.transitive(nid) if cfg.nodes[tn].kind == "test"]
         routes.append((t.slice, tests, a))
     problems = []
-    derived_r = _title_derived(fr, tv)
-    derived_p = _title_derived(sp_init, "title")
+    derived_r = _title_derived(fr, tv, known=("provisional_version",), modules=True)
+    derived_p = _title_derived(sp_init, "title", known=("version",), modules=True)
     n_eval = 0
+    unfolded = []
+    menv_r, menv_p = module_env(p, fr.module.name), module_env(p, sp_init.module.name)
     probes = []
     for L in LETTERS[:4] + "TX":
         for title in ("~" + L, "~" + L.lower(), "~" + L + "ection info", "~" + L.lower() + "ection info"):
@@ -1134,7 +1184,8 @@ def rule_route(ctx):
                                     break
                             continue      # a test about something else (LiDAR signature, ignore_data ...): not part of the routing
                         try:
-                            v = bool(_fold_title(t, tvar, title, extra, defs=dd))
+                            v = bool(_fold_title(t, tvar, title, extra, defs=dd, menv=menv_r if tvar == tv else menv_p,
+                                                 clsnode=None if tvar == tv else sp_init.cls.node))
                         except NotConst:
                             # tests not about the title (section_type == ..., version == 3.0 ...): assume the header-items, non-LAS3 case
                             assumed[0] = True
@@ -1155,18 +1206,23 @@ def rule_route(ctx):
             pk = pick(kinds, "title", extra_p)
             if rk is None or pk is None:
                 continue
+            if len(pk) > 1 and any(not tests for _, tests in kinds):
+                # a generic default assigned unconditionally first and overridden later: the last assignment that executes wins
+                pk = pk[-1:]
             if assumed[0] and (len(rk) != 1 or len(pk) != 1 or "las3_section" not in extra_r):
                 continue      # a test could not be folded for this probe and had to be approximated: no verdict from it
-            n_eval += 1
             if len(rk) != 1 or len(pk) != 1:
+                n_eval += 1
                 problems.append("title %r (version %s): %d routing stores and %d parser kinds are selected" % (
                     title, extra_p.get("version"), len(rk or []), len(pk or [])))
                 continue
             try:
-                key = _fold_title(rk[0], tv, title, defs=derived_r)
-                kind = _fold_title(pk[0], "title", title, defs=derived_p)
+                key = _fold_title(rk[0], tv, title, extra_r, defs=derived_r, menv=menv_r)
+                kind = _fold_title(pk[0], "title", title, extra_p, defs=derived_p, menv=menv_p, clsnode=sp_init.cls.node)
             except NotConst as e:
+                unfolded.append("%r: %s" % (title, e))
                 continue
+            n_eval += 1
             std = {"Curves", "Parameter", "Well", "Version"}
             if kind in std:
                 if key != kind:
@@ -1177,7 +1233,8 @@ def rule_route(ctx):
                     problems.append("a custom section titled %r is stored under sections[%r] instead of its own title" % (title, key))
     if n_eval < 12 and not problems:
         ctx.undecided("SEC.ROUTE", READ + "#route-vs-parser", fr, sp["loop"], "only %d probe titles could be evaluated: the routing "
-                      "in read() or the dispatch in SectionParser.__init__ is not an if-chain over the title" % n_eval)
+                      "in read() or the dispatch in SectionParser.__init__ is not an if-chain over the title%s" % (
+                          n_eval, (" (" + "; ".join(unfolded[:2]) + ")") if unfolded else ""))
         ctx.floor("SEC.ROUTE", 0)
         return
     ctx.check(not problems, "SEC.ROUTE", READ + "#route-vs-parser", fr, sp["loop"],
@@ -1241,6 +1298,34 @@ def _reseek_in(ctx, p, r, fr):
                 elif isinstance(c.func, ast.Attribute) and c.func.attr in ("read", "readline", "readlines") and isinstance(c.func.value, ast.Name) and "file" in c.func.value.id:
                     other_cons.append(node.id)
     all_cons = set([c[0] for c in cons] + other_cons)
+    # the position handed to seek() belongs to the section being read: inside a loop over sections it is not the leaked
+    # target of an earlier loop (which still holds the offset of that loop's last section)
+    from sa.dataflow import ReachingDefs
+    rd = None
+    for nid in seeks:
+        node = cfg.nodes[nid]
+        for c in walk_expr_shallow(node.ast.iter if node.kind == "for-iter" else node.ast):
+            if not (isinstance(c, ast.Call) and isinstance(c.func, ast.Attribute) and c.func.attr == "seek" and c.args):
+                continue
+            loops = []
+            cur = getattr(c, "_parent", None)
+            while cur is not None and cur is not fr.node:
+                if isinstance(cur, (ast.For, ast.While)):
+                    loops.append(cur)
+                cur = getattr(cur, "_parent", None)
+            if not loops:
+                continue
+            rd = rd or ReachingDefs(cfg)
+            stale = []
+            for nm in [x for x in ast.walk(c.args[0]) if isinstance(x, ast.Name)]:
+                for dn in rd.reaching(nm.id, nid):
+                    d = cfg.nodes[dn]
+                    if d.kind == "for-iter" and isinstance(d.ast, ast.For) and d.ast not in loops:
+                        stale.append("`%s` is the target of the earlier loop at line %d" % (nm.id, d.ast.lineno))
+            site = "%s#seek-position@%d" % (fr.qual, sorted(seeks).index(nid) + 1)
+            ctx.check(not stale, "SEC.RESEEK", site, fr, c, "the offset handed to seek() is bound by the loop that reads this section",
+                      "%s: seek(%s) goes to the offset that loop ended with (the last section of the file), so the consumer reads "
+                      "lines of another section whenever this one is not last" % ("; ".join(dict.fromkeys(stale)), unparse(c.args[0])))
     # a private helper is entered with the position its caller established (its call site is checked as a consumer)
     witnesses = _explore_dirty(cfg, set(seeks), all_cons, dirty_at_entry=(fr.qual == READ))
     for nid, call, what in cons:
